@@ -206,7 +206,9 @@ def run(ctx):
                 "repeated imports; one file missing / unparsable at every position; mis-shapen import fields; all 64 splits of 6 definitions "
                 "between the global and the project file.  distinct = distinct tree; non-trivial = at least one import edge.")
     cases = ctx.replay_cases if ctx.replay_cases else gen_cases(ctx)
-    cases = [c for c in cases if c.get("kind") != "global"] if ctx.replay_cases else cases
+    # a replay of a case of the global / mixed-formats sections runs that section again
+    replay_sections = {c.get("kind") for c in (ctx.replay_cases or []) if c.get("kind") in ("global", "mixed-formats")}
+    cases = [c for c in cases if c.get("kind") not in ("global", "mixed-formats")] if ctx.replay_cases else cases
     for k, c in enumerate(cases):
         c["id"] = k
     jobs, terms = [], {}
@@ -260,7 +262,7 @@ def run(ctx):
     for c in cases:
         c.pop("_obs", None)
     # ---- global + project ---------------------------------------------------------------------------------------
-    if not ctx.replay_cases:
+    if not ctx.replay_cases or "global" in replay_sections:
         gj = global_cases(ctx)
         gout = clilib.run_cli(os.path.join(ctx.workdir, "g"), gj, timeout=20)
         for j in gj:
@@ -284,7 +286,7 @@ def run(ctx):
                     res.violations.append({"class": None, "what": "variables / tasks of the global and project files are not all usable from the project",
                                            "case": case, "observed": {"rc": r["rc"], "out": lines, "err": (r.get("err") or "")[-400:]}})
     # ---- files of different formats in one import graph, with names YAML reads as integers ------------------------------
-    if not ctx.replay_cases:
+    if not ctx.replay_cases or "mixed-formats" in replay_sections:
         inc = "tasks:\n  2024:\n    command: [\"echo y2024 >> \\\"$PROJ/out\\\"\"]\n  extra:\n    command: [\"echo extra >> \\\"$PROJ/out\\\"\"]\n    env: {404: nf}\n"
         main = {"import": ["inc.yaml"], "tasks": {"main": {"command": ['echo main >> "$PROJ/out"']}}}
         mj = []
